@@ -289,9 +289,9 @@ func replayJobs(c *vf.Ctx) []spec {
 			bc.CutPos = fmt.Sprintf("abs:%d", f.Case.Res.N)
 		}
 	}
-	// the same request 40 times under the same kind of load
+	// the same request 12 times under the same kind of load
 	var cs []bcase
-	for i := 0; i < 40; i++ {
+	for i := 0; i < 12; i++ {
 		x := bc
 		x.No = i
 		cs = append(cs, x)
